@@ -76,6 +76,10 @@ func decodeAttrs(s string) []slog.Attr {
 			out = append(out, slog.Group(k, slog.String("x", string(UnH(v[1:]))), slog.Int("n", 7)))
 		case 'e':
 			out = append(out, slog.Any(k, errSvc))
+		case 'n': // a nil value: slog.Any("err", nil), logger.With("err", err) with a nil err
+			out = append(out, slog.Any(k, nil))
+		case 'z': // typed zero values
+			out = append(out, slog.Any(k, (*int)(nil)))
 		}
 	}
 	return out
@@ -282,11 +286,15 @@ func genC19(g *G) {
 		g.Emit("jhseq", strings.Join(ls, ","), strings.Join(refs, ","))
 	}
 	pick := func(xs []string) string { return xs[g.Rnd.IntN(len(xs))] }
-	msgs := []string{"", "hello", "with \"quotes\"", "line1\nline2", "tab\there", "\x00\x01ctl", "<a>&b", "é ü", "\xff\xfe bad", "back\\slash", " sep", "emoji \U0001F600", "a=b c=d", "trailing\n", "\r\n", "{\"json\":1}", strings.Repeat("long ", 80)}
-	keys := []string{"k", "key with space", "k\"q", "k\nn", "", "é", "k=v", "\xff"}
+	msgs := []string{"", "hello", "with \"quotes\"", "line1\nline2", "tab\there", "\x00\x01ctl", "<a>&b", "é ü", "\xff\xfe bad", "back\\slash", " sep", "emoji \U0001F600", "a=b c=d", "trailing\n", "\r\n", "{\"json\":1}", strings.Repeat("long ", 80), "a\x7fb", "\x7f", "del\x7f end"}
+	keys := []string{"k", "key with space", "k\"q", "k\nn", "", "é", "k=v", "\xff", "k\x7f", "\x7f"}
 	mkAttr := func() string {
 		k := HS(pick(keys))
-		switch g.Rnd.IntN(7) {
+		switch g.Rnd.IntN(9) {
+		case 7:
+			return k + "=n"
+		case 8:
+			return k + "=z"
 		case 0:
 			return k + "=i" + I(g.Rnd.IntN(2000)-1000)
 		case 1:
